@@ -804,6 +804,11 @@ func (r *Run) assignComps(sp *FuncSpec, a Expr) ([]string, bool) {
 				if stt, ok := tn.Type().Underlying().(*types.Struct); ok {
 					for i := 0; i < stt.NumFields(); i++ {
 						if stt.Field(i).Name() == x.Sel {
+							if arr, isArr := stt.Field(i).Type().Underlying().(*types.Array); isArr {
+								ec, _ := r.elemComp(arr.Elem())
+								out = append(out, ec)
+								continue
+							}
 							c, _ := r.fieldComp(stt, structName(tn.Type()), i)
 							out = append(out, c)
 						}
@@ -979,6 +984,15 @@ func (r *Run) resolveTarget(env *Env, a Expr, sp *FuncSpec) func(st *State) {
 		if l == nil {
 			env.fail("assigns: no field %s", exprString(a))
 			return nop
+		}
+		if l.Kind == LElem && l.Typ != nil {
+			if _, isArr := l.Typ.Underlying().(*types.Array); isArr {
+				// an array field: the whole row
+				return func(st *State) {
+					m := r.heapGet(st, l.Comp)
+					r.heapSet(st, l.Comp, r.ctx.Define("h."+l.Comp, Store(m, l.Base, r.ctx.Fresh("hvrow", arraySort(SInt, l.Sort)))))
+				}
+			}
 		}
 		return func(st *State) { r.havocLoc(st, l) }
 	case *EUnary:
